@@ -52,6 +52,14 @@ RECURSIVE ChebFrom(_, _, _, _, _)
 ChebFrom(c, n, k, tk, tkm1) == IF k = n THEN tk ELSE ChebFrom(c, n, k + 1, DySub(DyScale(DyMul(c, tk), 1), tkm1), tk)
 Cheb(n, c) == IF n = 0 THEN Dy1 ELSE ChebFrom(c, n, 1, c, Dy1)
 
+\* x rounded towards minus infinity to a multiple of 2^-k (keeps the limb count of long recurrences bounded; the error < 2^-k
+\* is accounted for by the caller's tolerance)
+DyTrunc(x, k) == IF x.e >= -k THEN x ELSE Dy(ZFloorShr(x.z, -k - x.e), -k)
+\* the same recurrence with every intermediate truncated to 2^-k: |ChebT - T_n| <= n^2 2^-k
+RECURSIVE ChebTFrom(_, _, _, _, _, _)
+ChebTFrom(c, n, k, tk, tkm1, bits) == IF k = n THEN tk ELSE ChebTFrom(c, n, k + 1, DyTrunc(DySub(DyScale(DyMul(c, tk), 1), tkm1), bits), tk, bits)
+ChebT(n, c, bits) == IF n = 0 THEN Dy1 ELSE ChebTFrom(DyTrunc(c, bits), n, 1, DyTrunc(c, bits), Dy1, bits)
+
 \* rational bounds of pi (for "the angle is pi within t")
 PiLo == Dy(ZOf(843314856), -28)              \* 3.14159265... * 2^28 rounded down
 PiHi == Dy(ZOf(843314857), -28)
